@@ -160,6 +160,9 @@ def transformed_run(spec, rec_a):
                     bounds=Bounds(pb.bounds.xl.copy(), pb.bounds.xu.copy()),
                     constraints=cons, options=opts, **b2.constants)
             except BaseException as exc:  # noqa: BLE001
+                if isinstance(exc, KeyboardInterrupt) or \
+                        type(exc).__name__ == "_CaseTimeout":
+                    raise
                 rec.exc = exc
     return rec
 
